@@ -182,6 +182,13 @@ fn roundtrip(n: usize) {
     let c = d.cdf(x);
     let tol = p.wmax / p.s + EPS;
     chk!("cdf_of_quantile_is_q", (c - q).abs() <= tol);
+    // "to within the digest's resolution" is only needed where quantile() is flat (equal neighbouring means, min == first
+    // mean, last mean == max: a whole centroid's mass sits on one value). Everywhere else both functions are the same
+    // piecewise-linear map read in the two directions, so cdf(quantile(q)) is q up to rounding - in the tails too.
+    if p.mn < p.m[0] && p.m[n - 1] < p.mx {
+        chk!("cdf_inverts_quantile_where_strictly_increasing", (c - q).abs() <= 1e-9);
+    }
+    cov!("left_tail_q", q > 0.0 && q * p.s < 0.5 * p.w[0] && p.mn < p.m[0]);
     cov!("right_tail_q", q * p.s > p.s - 0.5 * p.w[n - 1] && q < 1.0 && p.m[n - 1] < p.mx);
 }
 
